@@ -546,7 +546,7 @@ package server
 //@   ensures [C09:primary_unlabelled] resolved != nil && resolved.Primary != nil && resolved.PrimaryPath == "" && currentPath != "" ==> result[currentPath] == resolved.Primary
 //@   ensures [C09:single] resolved == nil && currentJournal != nil && currentPath != "" ==> result[currentPath] == currentJournal && (forall p string :: {result[p]} p != currentPath ==> !has(result, p))
 //@   ensures [C09:current_file_searched] currentJournal != nil && currentPath != "" ==> has(result, currentPath)
-//@   ensures [domain] forall p string :: {has(result, p)} has(result, p) ==> (resolved != nil && has(resolved.Files, p) && result[p] == resolved.Files[p]) || (resolved != nil && resolved.Primary != nil && result[p] == resolved.Primary) || (resolved == nil && currentJournal != nil && result[p] == currentJournal)
+//@   ensures [domain] forall p string :: {has(result, p)} has(result, p) ==> (resolved != nil && has(resolved.Files, p) && result[p] == resolved.Files[p]) || (resolved != nil && resolved.Primary != nil && result[p] == resolved.Primary) || (currentJournal != nil && p == currentPath && result[p] == currentJournal)
 //@   loop 1 modifies result[*]
 //@   loop 1 invariant result != nil && fresh(result) && resolved != nil
 //@   loop 1 invariant forall p string :: {result[p]} result[p] == ite(iterseen[p], resolved.Files[p], 0) && (has(result, p) <==> iterseen[p])
